@@ -19,6 +19,10 @@ CHECKS = {
          'every boolean result is evaluated at <= 260 sample points per operation with exact arithmetic: membership = op(membership of operands), no point '
          'covered twice, |winding| <= 1; area identities among or/and/xor/not; chained operations feed results with slits back in',
          'points within 2 grid units of an operand edge are not judged; operands sampled from lattice polygon families', '7/C05'),
+ 'C10': ('exploration', 'reference-model monitor: hand-composed 2x3 matrices vs element fields and outlines after transform sequences, under ASan+UBSan',
+         'vertices/spines equal the matrix image; width/offset/extension scaling rules; label/reference fields must reproduce the composed placement; '
+         'outline(T(path)) vs T(outline(path)) by guarded region sampling',
+         'sampled transform sequences; outline commutation only where widths follow the scaling', '7/C10'),
  'C11': ('exploration', 'reference-model monitor: the checker\'s own enumeration of the vector set vs get_count/get_offsets/get_extrema/apply_repetition/transform, under ASan+UBSan',
          'all five repetition kinds on all five element kinds, with boundary counts 0/1, negative spacings, duplicates; copies compared field by field and '
          'mutated to show independence from the original',
